@@ -184,6 +184,7 @@ class Cfg:
         self.bump = False         # code modifies context variable v
         self.time_guards = False
         self.time_obs = False     # code logs `time`; states carry time-aware invariants
+        self.anon = False         # code also sends events without any distinguishing parameter (equal by value)
         self.echo = False         # some guards use the event-free form and their text doubles as entry/exit code of a state
         self.force_history = False
         self.pair_bias = 0        # out of 8: probability that a new transition copies source/event of an earlier one
@@ -366,7 +367,9 @@ def decorate(sp, st, cfg, events):
             for _ in range(st.int(1, 2)):
                 out.append(('send', st.pick(events + ['ez']), st.pick(delays)))
         if cfg.notify and st.flag(1, 5):
-            out.append(('notify', st.pick(['na', 'nb']), None))
+            out.insert(st.choice(len(out) + 1), ('notify', st.pick(['na', 'nb']), None))
+        if cfg.anon and st.flag(1, 3):
+            out.append(('anon', st.pick(events), st.pick([None, 1, 2])))
         return out
 
     if cfg.sends or cfg.notify:
@@ -427,6 +430,8 @@ def _sends_code(sends):
     for kind, name, delay in sends:
         if kind == 'send':
             out.append('P.send(send, %r, %r)' % (name, delay))
+        elif kind == 'anon':
+            out.append('P.anon(send, %r, %r)' % (name, delay))
         else:
             out.append('P.notify(notify, %r)' % name)
     return out
@@ -441,6 +446,7 @@ def entry_code(s):
     if s.bump_entry:
         lines.append('v = v + 1')
         lines.append('w.append(v)')
+        lines.append("z = setdefault('z', 0) + 1")
     return '\n'.join(lines + _sends_code(s.entry_sends))
 
 
@@ -463,6 +469,7 @@ def action_code(t):
     if t.bump:
         lines.append('v = v + 3')
         lines.append('w.append(v)')
+        lines.append("z = setdefault('z', 0) + 1")
     return '\n'.join(lines + _sends_code(t.sends))
 
 
